@@ -3,4 +3,4 @@ From Common Require Import Bytes Drv.
 From C30 Require Import Model ModelSpec ProofsSorted.
 Extraction "model.ml" drv_b2n drv_n2b drv_z_of_n drv_n_of_z drv_nat_of_n drv_n_of_nat
   fixed prefix mkPS mkNode step check_core limits_step limits_ok counters_ok no_banned_ok ronly_ok reps_ok view_ok
-  report_ok guard_unreserve same_state init_pset sorted_ok vm_step sorted_peers banned_threshold disconnect_change.
+  report_ok guard_unreserve err_class_ok same_state init_pset sorted_ok vm_step sorted_peers banned_threshold disconnect_change.
